@@ -197,16 +197,26 @@ def go_env():
 
 
 def build_harness(race=False):
-    """Builds harness/cmd/vh against /repo's current working tree with -tags verif."""
+    """Builds harness/cmd/vh against the repository working tree (REPO, default /repo) with -tags verif."""
     os.makedirs(os.path.join(CACHE, "bin"), exist_ok=True)
-    out_bin = os.path.join(CACHE, "bin", "vh-race" if race else "vh")
-    with Lock("go"):
-        sums = os.path.join(HARNESS, "go.sum")
-        src = os.path.join(REPO, "go.sum")
-        if os.path.exists(src):
-            shutil.copyfile(src, sums)
+    tag = "" if REPO == "/repo" else "-" + hashlib.sha1(REPO.encode()).hexdigest()[:8]
+    out_bin = os.path.join(CACHE, "bin", ("vh-race" if race else "vh") + tag)
+    with Lock("go" + tag):
         env = go_env()
+        src = os.path.join(REPO, "go.sum")
         cmd = ["go", "build", "-tags", "verif", "-o", out_bin]
+        if REPO == "/repo":
+            if os.path.exists(src):
+                shutil.copyfile(src, os.path.join(HARNESS, "go.sum"))
+        else:
+            # scratch copy of the repository (used while testing seeded changes): alternate go.mod
+            d = os.path.join(CACHE, "gomod" + tag)
+            os.makedirs(d, exist_ok=True)
+            gm = open(os.path.join(HARNESS, "go.mod")).read().replace("=> /repo", "=> " + REPO)
+            open(os.path.join(d, "go.mod"), "w").write(gm)
+            if os.path.exists(src):
+                shutil.copyfile(src, os.path.join(d, "go.sum"))
+            cmd.append("-modfile=" + os.path.join(d, "go.mod"))
         if race:
             cmd.insert(2, "-race")
             env["CGO_ENABLED"] = "1"
